@@ -269,6 +269,12 @@ def make_case(rng, sw, nrows, cid):
     c.operator = "The Bank (fee)" if (c.has_charge or rng.random() < 0.3) else None
     c.default_conv = Conv(rng.choice(["extract", "compute"]), None, rng.choice(["sec", "pri"]),
                           rng.random() < 0.08) if c.has_conv else Conv()
+    # the account-level conversion left at okane's defaults (extract, price_of_secondary, enabled), spelled in the three
+    # equivalent ways: `commodity: USD`, `commodity: {primary: USD}`, or in full
+    c.conv_yaml_form = "full"
+    if c.has_conv and rng.random() < 0.25:
+        c.default_conv = Conv()
+        c.conv_yaml_form = rng.choice(["bare", "bare", "primary-only", "full"])
     c.precisions = {c.primary: 2} if rng.random() < 0.5 else {}
     c.crlf = rng.random() < 0.2
     # ---- columns
@@ -344,10 +350,15 @@ def make_case(rng, sw, nrows, cid):
     c.multi = len(commodities) > 1
     bal = {k: rng.choice([0, 100000, 123456, -5000, 250]) for k in commodities}
     c.b0 = dict(bal)
+    late_rows = rng.random() < 0.2
     for i in range(nrows):
         r = {}
         d = next_date(rng, d)
         r["date"] = d
+        if late_rows and i > 0 and rng.random() < 0.3:
+            # a late-booked row: its date cell lies BEFORE the previous row's; the statement order (and with it the
+            # running balance) is the order of the rows, not of the dates
+            r["date"] = (d[0], d[1], max(1, d[2] - rng.randint(1, 3)))
         r["payee"] = rng.choice(PAYEES)
         r["category"] = rng.choice(CATEGORIES)
         r["note"] = rng.choice(NOTES)
@@ -494,8 +505,10 @@ def render(rng, c):
     y = ["path: statement\n", "encoding: UTF-8\n", "account: %s\n" % yq(c.account), "account_type: %s\n" % c.account_type]
     if c.operator is not None:
         y.append("operator: %s\n" % yq(c.operator))
-    if c.has_conv:
+    if c.has_conv and c.conv_yaml_form == "full":
         y.append("commodity:\n  primary: %s\n  conversion:\n%s" % (c.primary, c.default_conv.yaml(4)))
+    elif c.has_conv and c.conv_yaml_form == "primary-only":
+        y.append("commodity:\n  primary: %s\n" % c.primary)
     else:
         y.append("commodity: %s\n" % c.primary)
     y.append("format:\n  date: %s\n" % yq(c.date_fmt))
